@@ -5,6 +5,7 @@ import (
 	"go/ast"
 	"go/token"
 	"go/types"
+	"golang.org/x/tools/go/packages"
 	"sort"
 	"strings"
 
@@ -54,6 +55,7 @@ func C15(r *core.Run) {
 	r.Floor("R-SYM/S1", 30, "fields of Object/Oneof/Enum/ObjectProperty/*Field written by the exporter")
 	carrierCoverage(r, exp, imp)
 	verbatimImport(r, imp, pk.TypesInfo)
+	exportNoOverride(r, pk)
 	refsLinkGuard(r)
 }
 
@@ -423,4 +425,76 @@ func verbatimImport(r *core.Run, imp []ast.Node, info *types.Info) {
 		})
 	}
 	r.Analysed["transformed_string_imports"] = n
+}
+
+// exportNoOverride (R-SYM/S5x): in an export method a field of the exported
+// message that is copied from the in-memory schema is not also given another
+// value: `out.F = true` after `F: s.F` turns the export into a function of
+// other attributes, and since the importer copies F back verbatim, a second
+// export of the re-imported schema differs from the first.
+func exportNoOverride(r *core.Run, pk *packages.Package) {
+	r.Rule("R-SYM/S5x", "in the ToJ5* export methods, a boolean or string field of the exported message that is copied from the receiver is not assigned anything else in the same method (no override under a condition on another attribute): export is a plain copy, so export → import → export is stable")
+	info := pk.TypesInfo
+	n := 0
+	core.AllFuncDecls(pk, func(fd *ast.FuncDecl) {
+		if !strings.HasPrefix(fd.Name.Name, "ToJ5") || fd.Recv == nil || len(fd.Recv.List) != 1 || len(fd.Recv.List[0].Names) != 1 {
+			return
+		}
+		recv := info.Defs[fd.Recv.List[0].Names[0]]
+		type store struct {
+			field string
+			val   ast.Expr
+			pos   token.Pos
+		}
+		var stores []store
+		ast.Inspect(fd.Body, func(nd ast.Node) bool {
+			switch x := nd.(type) {
+			case *ast.CompositeLit:
+				if nt := core.NamedOf(info.TypeOf(x)); nt != nil && nt.Obj().Pkg() != nil && nt.Obj().Pkg().Path() == schemaPB {
+					for _, el := range x.Elts {
+						if kv, ok := el.(*ast.KeyValueExpr); ok {
+							if id, ok := kv.Key.(*ast.Ident); ok {
+								stores = append(stores, store{nt.Obj().Name() + "." + id.Name, kv.Value, kv.Pos()})
+							}
+						}
+					}
+				}
+			case *ast.AssignStmt:
+				for i, l := range x.Lhs {
+					s, ok := core.Unparen(l).(*ast.SelectorExpr)
+					if !ok || len(x.Rhs) != len(x.Lhs) {
+						continue
+					}
+					if nt := core.NamedOf(info.TypeOf(s.X)); nt != nil && nt.Obj().Pkg() != nil && nt.Obj().Pkg().Path() == schemaPB {
+						stores = append(stores, store{nt.Obj().Name() + "." + s.Sel.Name, x.Rhs[i], x.Pos()})
+					}
+				}
+			}
+			return true
+		})
+		fromRecv := func(e ast.Expr) bool {
+			s, ok := core.Unparen(e).(*ast.SelectorExpr)
+			if !ok {
+				return false
+			}
+			id, ok := core.Unparen(s.X).(*ast.Ident)
+			return ok && info.Uses[id] == recv
+		}
+		copied := map[string]bool{}
+		for _, st := range stores {
+			if fromRecv(st.val) {
+				copied[st.field] = true
+			}
+		}
+		for _, st := range stores {
+			bt, ok := info.TypeOf(st.val).Underlying().(*types.Basic)
+			if !ok || bt.Info()&(types.IsBoolean|types.IsString) == 0 || !copied[st.field] || fromRecv(st.val) {
+				continue
+			}
+			n++
+			o := r.Add("R-SYM/S5x", "j5schema."+core.FuncName(fd)+" | "+st.field+" also set to "+core.NormExpr(info, st.val), st.pos, "exported "+st.field+" is the in-memory value")
+			o.Fail("%s is copied from the receiver and also set to %s in the same export method: the exported value is no longer the in-memory one, and because the importer takes it back verbatim a re-export of the re-imported schema differs", st.field, core.ExprStr(st.val))
+		}
+	})
+	r.Analysed["export_overrides"] = n
 }
